@@ -167,8 +167,9 @@ def _asm_case(args):
         out, dbg = d / "p.fjm", d / "p.fjd"
         obs = {"outcome": "ok", "img": [], "table": []}
         msg = ""
+        alarm = engines._Alarm(60.0)                 # every run of the code under test is bounded
         try:
-            with contextlib.redirect_stdout(io.StringIO()):
+            with alarm, contextlib.redirect_stdout(io.StringIO()):
                 flipjump.assemble([src], out, memory_width=w, fjm_version=FJMVersion(version), use_stl=False, print_time=False,
                                   debugging_file_path=dbg, warning_as_errors=False)
         except FlipJumpException as e:
@@ -177,7 +178,7 @@ def _asm_case(args):
             if "Unknown exception" in str(e):
                 obs["outcome"] = "generic-error"
         except BaseException as e:  # noqa: BLE001
-            obs["outcome"] = f"raw:{type(e).__name__}"
+            obs["outcome"] = f"raw:{type(e).__name__}" + (":did-not-terminate-in-60s" if alarm.fired else "")
             msg = str(e)[:200]
         if obs["outcome"] == "ok":
             r = Reader(out)
